@@ -1,16 +1,16 @@
 #!/bin/bash
-# usage: ingest_seeds.sh <round> <prop>...   copies /tmp/seedout-<round>-<P>/{A,B} to seeded/<P>-<round>-{a,b} and runs seedcheck on each
+# usage: ingest_seeds.sh <round> <prop>...   copies /tmp/seedout-<round>-<P>/{A,B,C} to seeded/<P>-<round>-{a,b,c} and runs seedcheck on each
 R=$1; shift
 cd /verif
 for P in "$@"; do
-  for X in A B; do
+  for X in A B C; do
     src=/tmp/seedout-$R-$P/$X
-    [ -f $src/patch.diff ] || { echo "missing $src"; continue; }
+    [ -f $src/patch.diff ] || continue
     x=$(echo $X | tr A-Z a-z)
     d=seeded/$P-$R-$x
     mkdir -p $d; cp $src/patch.diff $src/demo_test.go.txt $src/meta.json $d/
-    ( ./seedcheck.sh $PWD/$d $P > $d/.check.json 2>&1; echo "$P-$R-$x $(tail -1 $d/.check.json | cut -c1-600)" ) &
-    while [ $(jobs -r | wc -l) -ge 4 ]; do sleep 1; done
+    ( ./seedcheck.sh $PWD/$d $P > $d/.check.json 2>&1; echo "$P-$R-$x $(tail -1 $d/.check.json | cut -c1-700)" ) &
+    while [ $(jobs -r | wc -l) -ge 5 ]; do sleep 1; done
   done
 done
 wait
